@@ -20,6 +20,7 @@ class Scan:
         self.ignores = []
         self.files = []         # regular files met by the walk (full paths)
         self.unreachable = []
+        self.untouched_stale = []
 
     def add(self, kind, path, text):
         self.problems.append((kind, path, text))
@@ -64,7 +65,8 @@ def load_all(root, top='Manifest'):
     return s
 
 
-def scan(root, top='Manifest', subdir='', hashes=None, strict_hashes=True):
+def scan(root, top='Manifest', subdir='', hashes=None, strict_hashes=True,
+         rewritten=None):
     """Check that the Manifests reachable from root/top describe the
     directory @subdir exactly.  Returns a Scan with .problems."""
     s = load_all(root, top)
@@ -88,6 +90,13 @@ def scan(root, top='Manifest', subdir='', hashes=None, strict_hashes=True):
             kind, why = refverify.check_file(os.path.join(root, mpath),
                                              e.size, e.checksums)
             if kind != 'ok':
+                if (rewritten is not None and subdir
+                        and not comp_prefix(subdir, mdir)
+                        and mpath not in rewritten):
+                    # a reference *above* the updated sub-directory that
+                    # this update did not touch: stale before, not blessed
+                    s.untouched_stale.append(mpath)
+                    continue
                 s.add('stale-manifest-ref', mpath,
                       f'entry in {parent}: {kind}: {why}')
 
